@@ -504,3 +504,51 @@ def normalizeT (ec : ECtx) : Op → Op
   | o => normalize ec o
 
 end Model.Render
+
+/-! ## containers: evaluating what `_render_modify_table` emits -/
+
+namespace Model.Render
+open Model.Py
+
+/-- `op.batch_alter_table(table, schema=…)` of a `with … as batch_op:` header -/
+def evalHeader (c : Ctx) : PyAst → Option (Str × Option Str)
+  | .call fn _ items =>
+    if fn = c.opPrefix ++ S "batch_alter_table" then
+      match posArgs items, (kwArg (S "schema") items).bind evalOptStr with
+      | [.str table], some schema => some (table, schema)
+      | _, _ => none
+    else none
+  | _ => none
+
+/-- the statements of a block, in order (blank lines are not statements) -/
+def evalBody (ec : ECtx) : List Line → Option (List Op)
+  | [] => some []
+  | .expr e :: r =>
+    match evalCallT ec e, evalBody ec r with
+    | some o, some os => some (o :: os)
+    | _, _ => none
+  | .blank :: r => evalBody ec r
+  | .withBatch _ :: _ => none
+
+/-- a rendered top-level operation: either a `with op.batch_alter_table(...)` block, whose statements are evaluated as
+`batch_op.*` calls on the header's table / schema, or plain `op.*` statements -/
+def evalLines (c : Ctx) : List Line → Option (List Op)
+  | .withBatch h :: r =>
+    match evalHeader c h with
+    | some (t, s) => evalBody { c := { c with batch := true }, table := t, schema := s } r
+    | none => none
+  | ls => evalBody { c := { c with batch := false }, table := [], schema := none } ls
+
+/-- the operations a rendered top-level operation stands for: the members of the group, in order, each normalised
+with respect to the context it is rendered in (inside a batch block: the header's table and schema) -/
+def normTop (c : Ctx) (asBatch : Bool) : Top → List Op
+  | .single o => [normalizeT { c := { c with batch := false }, table := [], schema := none } o]
+  | .modify table schema ops =>
+    if asBatch then ops.map (normalizeT { c := { c with batch := true }, table := table, schema := schema })
+    else ops.map (normalizeT { c := { c with batch := false }, table := [], schema := none })
+
+def topOps : Top → List Op
+  | .single o => [o]
+  | .modify _ _ ops => ops
+
+end Model.Render
